@@ -136,8 +136,10 @@ def run(tier, seed, only=None):
     ]
     ck.assumptions += [
         "theorems are about the record/token-level model; floats enter through abstract quantisers",
-        "grid axes are resolvable at 5 decimals (hypothesis grid_ok of C14_roundtrip); the faithful model "
-        "refutes the clause outside (C14_shape_coarse_step_refuted)",
+        "grid axes are resolvable at 5 decimals (hypotheses c_axis_x / c_axis_y of C14_roundtrip_outside_finding); the "
+        "faithful model refutes the clause outside (C14_roundtrip_coarse_step_refuted)",
+        "phase names are non-empty with words separated by single blanks (name_ok); runs of blanks are refuted "
+        "(C14_roundtrip_blank_run_name_refuted)",
     ]
     if not ck.step_sanity():
         return ck.finish()
@@ -160,7 +162,8 @@ def run(tier, seed, only=None):
     for f in out["fails"]:
         ck.failure(f["sig"], f["what"], f["replay"])
     ck.cov["rule"] = (
-        "structured random crystal maps: 2-D / 1-D / single column / tiny grids, exact and inexact and coarse "
+        "structured random crystal maps: 2-D / 1-D / single column / tiny grids (every grid of 1-3 points, single row, "
+        "single column, single point in every run), exact and inexact and coarse "
         "steps, large coordinates, random / rectangular / row / column masks (incl. exactly 3 and exactly 1 point "
         "in data), 1-3 phases with arbitrary ids over all 38 named point groups and None, names plain / blank / "
         "empty, not-indexed points, 0-6 properties (float, int, large, near-tie, special values, several layers), "
